@@ -8,6 +8,7 @@
 //   X n dim maxbatch npairs | x (n*dim) | pairs (s g)* | flips (pairs i j over 0..npairs-1)
 //   Y n dim cacheRows | x (n*dim)
 // output: one line per case, fields  NAME=v,v,...  (hex doubles, row-major n x n) | EXC msg
+#include <shark/Models/Kernels/LinearKernel.h>   // DifferenceKernelMatrix.h relies on AbstractKernelFunction being declared already
 #include <shark/LinAlg/GaussianKernelMatrix.h>
 #include <shark/LinAlg/DifferenceKernelMatrix.h>
 #include <shark/LinAlg/PartlyPrecomputedMatrix.h>
